@@ -38,9 +38,12 @@ def concretise(case, member, idx, route):
     if x["tail"] == "marker":  # the payload ends in something that resembles the header of a relocation table
         app[-16:] = struct.pack("<4I", MARKER, 0, 1, 0x100)
     o = B.Opts(app=bytes(app), tz=x["tz"] if x["tz"] != "none" else None, hwkey=x["hwKey"], img_ver=x["imgVer"], sub=x["sub"], fw_ver=x["fwVer"],
-               load=(x["load"][0] << 16) | x["load"][1], certdir=os.path.join(scratch(), "c01", "certs"))
+               load=(x["load"][0] << 16) | x["load"][1], certdir=os.path.join(scratch(), "c01", "certs"), variant=idx)
     if x["tz"] == "custom":
-        o["tz_data"] = r.randbytes(x["tzLen"])
+        if idx % 2 == 0:  # dictionary / YAML form: about half of the registers customised, the others keep the database presets
+            o["tz_customs"], o["tz_data"] = B.tz_customs(member, r)
+        else:             # binary preset file
+            o["tz_data"] = r.randbytes(x["tzLen"])
     if x["ks"]:
         o["ks"] = r.randbytes(1424)
     if x["relocs"]:
@@ -97,6 +100,8 @@ def observe(job):
     ]
     if o.get("relocs"):
         h.append(reloc_event(data, o))
+    if B.has(member, "ManifestCrc") or B.has(member, "ManifestDigest"):
+        h.append(manifest_event(data, o))
     # ---- parse trace
     p = [head]
     parsed = None
@@ -128,6 +133,24 @@ def reloc_event(data, o):
     small = lambda z: z if z < 2**31 else -1  # noqa: E731
     return {"ev": "ExpReloc", "found": True, "ptr": small(ptr), "hdrAt": at, "ents": [[small(e[0]), small(e[2]), small(e[3])] for e in ents],
             "imgAt": [data.find(img) for img, _ in o["relocs"]], "dstOk": all(e[1] == dst for e, (_, dst) in zip(ents, o["relocs"]))}
+
+
+def manifest_event(data, o):
+    """The image manifest behind the certificate block, decoded with struct; digest / CRC recomputed with hashlib / the table CRC."""
+    import hashlib
+
+    certs = B.find_cert_headers(data)
+    at = data.find(b"imgm", certs[0]) if certs else -1
+    if at < 0 or at + 20 > len(data):
+        return {"ev": "ExpManifest", "at": -1, "fw": -1, "total": -1, "flags": [0, 0], "crcOk": False, "digestOk": False}
+    _, _, fw, total, flags = struct.unpack_from("<4s4I", data, at)
+    crc_ok = total >= 24 and at + total <= len(data) and B.crc32_mpeg2(data[: at + total - 4]) == struct.unpack_from("<I", data, at + total - 4)[0]
+    dlen = {1: 32, 2: 48, 3: 64}.get(flags & 0xF, 0) if flags >> 31 else 0
+    dig_ok = False
+    if dlen:
+        pre = data[: len(data) - dlen - B.v21_sig_len(o["cert"])]
+        dig_ok = hashlib.new({32: "sha256", 48: "sha384", 64: "sha512"}[dlen], pre).digest() == data[-dlen:]
+    return {"ev": "ExpManifest", "at": at, "fw": fw if fw < 2**31 else -1, "total": total if total < 2**31 else -1, "flags": limbs(flags), "crcOk": bool(crc_ok), "digestOk": dig_ok}
 
 
 def parse_events(q, member, o, data, apad):
@@ -393,7 +416,7 @@ def run(tier):
         sel = select(cases, r, 22)
     else:
         sel = select(cases, r, 10**9)
-        cap = int(os.environ.get("C01_MAX_CASES", "26000"))
+        cap = int(os.environ.get("C01_MAX_CASES", "12000"))
         if len(sel) > cap:
             keep = select(cases, r, 40)
             ids = {json.dumps(c, sort_keys=True) for c in keep}
